@@ -143,3 +143,4 @@ Example C07_normalize_hypotheses_satisfiable :
   /\ hostText (normalize 63 u) = Some [104; 97])%N.
 Proof.
   cbv zeta. split; [split; [apply produced_wfb_n_sound|split]|split]; vm_compute; reflexivity.
+Qed.
